@@ -63,10 +63,12 @@ func vTransOK(t pr.SDimensions) bool {
 //@   requires box_ != nil && box.Style != nil
 //@   requires box.Width != nil && box.PaddingLeft != nil && box.PaddingRight != nil && box.BorderLeftWidth != nil && box.BorderRightWidth != nil && box.MarginLeft != nil
 //@   requires box.Height != nil && box.PaddingTop != nil && box.PaddingBottom != nil && box.BorderTopWidth != nil && box.BorderBottomWidth != nil && box.MarginTop != nil
-//@   requires forall(i, 0, len(trans), vTransOK(trans[i]))
+//@   requires forall(i, 0, len(trans), in(trans[i].String, "scale", "rotate", "translate", "skew", "matrix"))
+//@   requires forall(i, 0, len(trans), len(trans[i].Dimensions) >= 1 && (trans[i].String != "rotate" ==> len(trans[i].Dimensions) >= 2) && (trans[i].String == "matrix" ==> len(trans[i].Dimensions) >= 6))
+//@   requires forall(i, 0, len(trans), trans[i].String == "translate" ==> (trans[i].Dimensions[0].Unit == pr.Px || trans[i].Dimensions[0].Unit == pr.Perc) && (trans[i].Dimensions[1].Unit == pr.Px || trans[i].Dimensions[1].Unit == pr.Perc))
 //@   requires (box.Style.GetTransformOrigin()[0].Unit == pr.Px || box.Style.GetTransformOrigin()[0].Unit == pr.Perc) && (box.Style.GetTransformOrigin()[1].Unit == pr.Px || box.Style.GetTransformOrigin()[1].Unit == pr.Perc)
 //@   call RightMultBy#1 assert arg1 == vSpecMat(name, args, borderWidth, borderHeight)
 //@   call Translate#2 assert arg1 == -originX && arg2 == -originY
 //@   call New#1 assert arg0 == 1 && arg1 == 0 && arg2 == 0 && arg3 == 1 && arg4 == originX && arg5 == originY
-//@   loop 1 invariant rangeindex < len(trans) && matrix != nil
+//@   loop 1 invariant rangeindex < len(trans)
 //@   loop 1 decreases len(trans) - rangeindex
